@@ -23,6 +23,7 @@ import (
 	"fmt"
 	"math"
 	"sort"
+	"strconv"
 	"strings"
 
 	"github.com/fxamacker/cbor/v2"
@@ -196,6 +197,8 @@ func (c *compactMapExtraData) Type() TypeInfo {
 }
 
 // makeCompactMapTypeID returns id of concatenated t.ID() with sorted names with "," as separator.
+// Each name is prefixed by its length so that names containing the separator can't make
+// different field sets produce the same id.
 func makeCompactMapTypeID(encodedTypeInfo string, names []ComparableStorable) string {
 	const separator = ","
 
@@ -204,7 +207,7 @@ func makeCompactMapTypeID(encodedTypeInfo string, names []ComparableStorable) st
 	}
 
 	if len(names) == 1 {
-		return encodedTypeInfo + separator + names[0].ID()
+		return encodedTypeInfo + separator + lengthPrefixedName(names[0].ID())
 	}
 
 	sorter := newFieldNameSorter(names)
@@ -251,7 +254,12 @@ func (fn *fieldNameSorter) join(sep string) string {
 		if i > 0 {
 			sb.WriteString(sep)
 		}
-		sb.WriteString(fn.names[index].ID())
+		sb.WriteString(lengthPrefixedName(fn.names[index].ID()))
 	}
 	return sb.String()
+}
+
+// lengthPrefixedName returns name prefixed by its length and ":".
+func lengthPrefixedName(name string) string {
+	return strconv.Itoa(len(name)) + ":" + name
 }
